@@ -28,6 +28,7 @@ REPO = os.environ.get("SKA_REPO", "/repo")
 DRIVER = os.path.join(LEAN, ".lake", "build", "bin", "skadriver")
 GENDRIVER = os.path.join(LEAN, ".lake", "build", "bin", "skagendriver")
 SELGENDRIVER = os.path.join(LEAN, ".lake", "build", "bin", "skaselgendriver")
+DENSGENDRIVER = os.path.join(LEAN, ".lake", "build", "bin", "skadensgendriver")
 ALLOWED_AXIOMS = {"propext", "Classical.choice", "Quot.sound"}
 FORBIDDEN = re.compile(
     r"\bsorry\b|\badmit\b|^axiom\s|native_decide|bv_decide|implemented_by|\bunsafe\s|maxHeartbeats\s+0\b",
@@ -336,20 +337,24 @@ def run_check(prop, module, tier, seed):
             # targets that depend on files regenerated from the current source (translator tie): built separately, so
             # that a generated file that stops compiling breaks this tie only and not the hand-written model's driver
             gen_targets = list(getattr(module, "GEN_TARGETS", []))
+            groups = gen_targets if (gen_targets and isinstance(gen_targets[0], (list, tuple))) else ([gen_targets] if gen_targets else [])
             ctx.gen_ok = False
-            if gen_targets and not getattr(ctx, "gen_failed", False):
-                br2 = lake_build(gen_targets)
+            ctx.gen_ok_groups = []
+            for gi, group in enumerate(groups):
+                # each group belongs to one translator: a generated file that stops compiling breaks that tie only
+                br2 = lake_build(list(group))
                 build_log += br2.log
+                ctx.gen_ok_groups.append(br2.ok)
                 if br2.ok:
-                    ctx.gen_ok = True
-                    prop_mods += [t for t in gen_targets if t.startswith("SkaModel.")]
+                    prop_mods += [t for t in group if t.startswith("SkaModel.")]
                 else:
                     errs = [l for l in br2.log.splitlines() if "error" in l][:6]
                     failing = failing_theorems(br2.log)
                     if failing:
                         errs = ["theorems that no longer check: " + ", ".join(failing)] + errs[:3]
                     ctx.broken.append("the theorems about the model generated from the current source no longer check "
-                                      "(lake build " + " ".join(gen_targets) + "): " + " | ".join(errs))
+                                      "(lake build " + " ".join(group) + "): " + " | ".join(errs))
+            ctx.gen_ok = bool(groups) and ctx.gen_ok_groups[0]
             aud = audit(prop_mods)
             for pr in aud["problems"]:
                 ctx.broken.append("audit: " + pr)
@@ -462,7 +467,7 @@ def run_check(prop, module, tier, seed):
     cov = dict(
         obligations=max(aud["obligations"] + ctx.notes.get("generated_obligations", 0), 1),
         discharged=max(aud["discharged"] + ctx.notes.get("generated_discharged", 0), 0),
-        checker_cmd="cd lean && lake build " + " ".join(list(module.LEAN_TARGETS) + list(getattr(module, "GEN_TARGETS", []))) + " && lake env lean <generated #print axioms file>",
+        checker_cmd="cd lean && lake build " + " ".join(list(module.LEAN_TARGETS) + [t for g in getattr(module, "GEN_TARGETS", []) for t in (g if isinstance(g, (list, tuple)) else [g])]) + " && lake env lean <generated #print axioms file>",
         trusted_base=TRUSTED_BASE + list(getattr(module, "TRUSTED", [])),
         theorems=aud["theorems"],
         evaluations=ctx.evaluations,
